@@ -312,7 +312,14 @@ func runPR(t *testing.T, x prScn, prop string, verbose bool) vfCase {
 				if out.EndPeek[i].MyRwnd != uint32(sc.Cfg[i].rbuf()) && out.Done {
 					p := vfPeekAssoc(s.as[i])
 					if p.MyRwnd != uint32(sc.Cfg[i].rbuf()) {
-						c.fail("window-not-restored", "side %d: after everything was acknowledged or skipped and read, the advertised window is %d of %d (%d bytes held for reassembly)", i, p.MyRwnd, sc.Cfg[i].rbuf(), p.ReasmBytes)
+						sig := "window-not-restored"
+						if prLateUnorderedFragmentsOnly(s, i) {
+							// known finding: a fragment of an abandoned *unordered* message that reaches
+							// the receiver after the FORWARD-TSN which abandoned the message can neither be
+							// completed nor purged (no later skip names it)
+							sig = "late-unordered-fragment-after-forward-tsn"
+						}
+						c.fail(sig, "side %d: after everything was acknowledged or skipped and read, the advertised window is %d of %d (%d bytes held for reassembly)", i, p.MyRwnd, sc.Cfg[i].rbuf(), p.ReasmBytes)
 					}
 				}
 			}
@@ -472,6 +479,77 @@ func runPR(t *testing.T, x prScn, prop string, verbose bool) vfCase {
 		c.Detail = out.sim.history(500)
 	}
 	return c
+}
+
+// prLateUnorderedFragmentsOnly: everything still held by the receiver `side` consists of
+// unordered fragments (incomplete messages) each of which was first delivered to it after a
+// (I-)FORWARD-TSN from the peer had already been delivered.
+func prLateUnorderedFragmentsOnly(s *vfSim, side int) bool {
+	a := s.as[side]
+	a.lock.RLock()
+	var held []*chunkPayloadData
+	for _, st := range a.streams {
+		st.lock.RLock()
+		rq := st.reassemblyQueue
+		for _, set := range rq.ordered {
+			held = append(held, set.chunks...)
+		}
+		for _, set := range rq.unordered {
+			held = append(held, set.chunks...)
+		}
+		held = append(held, rq.unorderedChunks...)
+		for _, set := range rq.orderedMID {
+			held = append(held, set.chunks...)
+		}
+		for _, set := range rq.unorderedMID {
+			held = append(held, set.chunks...)
+		}
+		for _, set := range rq.unorderedMIDMap {
+			held = append(held, set.chunks...)
+		}
+		st.lock.RUnlock()
+	}
+	a.lock.RUnlock()
+	if len(held) == 0 {
+		return false
+	}
+	firstFwd := time.Duration(-1)
+	firstData := map[uint32]time.Duration{}
+	for i := range s.net.deliv {
+		d := &s.net.deliv[i]
+		if d.To != side {
+			continue
+		}
+		p, err := wDecode(d.Raw)
+		if err != nil || p == nil {
+			continue
+		}
+		for k := range p.Chunks {
+			ch := &p.Chunks[k]
+			switch ch.Type {
+			case wtFWD, wtIFWD:
+				if firstFwd < 0 {
+					firstFwd = d.T
+				}
+			case wtDATA, wtIDATA:
+				if _, ok := firstData[ch.TSN]; !ok {
+					firstData[ch.TSN] = d.T
+				}
+			}
+		}
+	}
+	if firstFwd < 0 {
+		return false
+	}
+	for _, c := range held {
+		if !c.unordered || (c.beginningFragment && c.endingFragment) {
+			return false
+		}
+		if at, ok := firstData[c.tsn]; !ok || at < firstFwd {
+			return false
+		}
+	}
+	return true
 }
 
 // prAckTimes: for every (side, tsn) the instant at which an acknowledgement (cumulative or
